@@ -194,6 +194,10 @@ def run(ctx, rep):
     config_never_removed(ctx, rep, R)
 
     from rules import errprop, flush
+    # the packer's finalize waits for the asynchronous pack writer on every path (a failed write of the last full pack must
+    # fail the command before index and snapshot are written)
+    from rules import C13
+    C13.writer_joined_rule(ctx, rep, "R-FLUSH")
     errprop.run(ctx, rep, "R-ERRPROP")
     errprop.run_iter(ctx, rep, "R-ERRITER")
     flush.run(ctx, rep, "R-FLUSH")
